@@ -2,6 +2,14 @@
 """print the prompt for an independent seeding agent: seed_prompt.py Cxx"""
 import json, sys
 pid = sys.argv[1]
+import glob, os
+prior = []
+for f in sorted(glob.glob('/verif/seeded/%s-*/meta.json' % pid)):
+    m = json.load(open(f))
+    prior.append("- %s (files: %s)" % (m.get("summary", "")[:300], ", ".join(m.get("files", []))))
+PRIOR = ("\n\nChanges of this kind were ALREADY produced in an earlier round - do not repeat them or close variants; pick other "
+         "mechanisms, other functions, other input shapes:\n" + "\n".join(prior) + "\n") if prior and "--round2" in sys.argv else ""
+OUT = "out2" if "--round2" in sys.argv else "out"
 prop = [json.loads(l) for l in open('/verif/properties.jsonl') if l.strip() and json.loads(l)['id'] == pid][0]
 D = "/tmp/seed_%s" % pid
 print(f"""You are testing how well a semantic property of a Python library is protected. The library is Crunch-io/crunch-cube (a pure-Python library that turns Crunch.io cube JSON responses into crosstab measures). You have your own scratch git worktree of it at {D}/wt (source under {D}/wt/src/cr/cube, tests under {D}/wt/tests). Work ONLY inside {D} - never touch /repo or /verif, do not read anything under /verif.
@@ -13,9 +21,9 @@ The property (the only specification you get):
 
 Task: produce TWO different, realistic changes to the library source (each a small patch a hurried maintainer could plausibly make: a refactoring slip, a wrong axis/plane/index, an off-by-one, a dropped special case, a swapped argument, an optimisation that is wrong in a corner, two edits that each look fine alone) such that for EACH change:
  1. the library still imports, and the repository's own test-suite still gives exactly the baseline result (2163 passed, same single pre-existing failure) - so the existing tests do not notice it;
- 2. the property above is violated on some input: write a small demonstration script `{D}/out/<k>/demo.py` (k = 1, 2) that builds a cube response + transforms in memory (no fixture files needed, though you may load fixtures from the worktree's tests/fixtures), exercises the public API, checks the property on it with an assertion taken directly from the property text, exits 0 when the property holds and non-zero (assertion error) when it is violated. It must PASS (exit 0) on the unmodified worktree and FAIL with your change applied;
+ 2. the property above is violated on some input: write a small demonstration script `{D}/{OUT}/<k>/demo.py` (k = 1, 2) that builds a cube response + transforms in memory (no fixture files needed, though you may load fixtures from the worktree's tests/fixtures), exercises the public API, checks the property on it with an assertion taken directly from the property text, exits 0 when the property holds and non-zero (assertion error) when it is violated. It must PASS (exit 0) on the unmodified worktree and FAIL with your change applied;
  3. the violation needs something specific to manifest - a particular shape of data (e.g. square tables, a missing category in the middle, zero weights, an unusual dimension-type pairing), a multi-step sequence of operations, an unusual but legal transform, or two cooperating sites - NOT something ordinary use would expose at once (a change that breaks every table is useless).
-The two changes must touch different mechanisms of the property (different functions/classes, ideally different files among the property's anchors).
+The two changes must touch different mechanisms of the property (different functions/classes, ideally different files among the property's anchors).{PRIOR}
 
-Procedure for each change k: edit the worktree; run `{D}/run_tests` and confirm the baseline result; run `{D}/py {D}/out/k/demo.py` and confirm it fails; save the patch with `git -C {D}/wt diff > {D}/out/k/patch.diff`; then `git -C {D}/wt checkout -- .` and confirm the demo passes on the clean tree. Also write `{D}/out/k/meta.json` = {{"property": "{pid}", "summary": "<one line: what the change does>", "needs": "<what specific input / sequence / configuration is needed for the violation to manifest>", "files": [...], "tests_result": "<the exact last line of run_tests with the change applied>", "demo_result_with_change": "<exit code + last line>", "demo_result_clean": "<exit code>"}}.
+Procedure for each change k: edit the worktree; run `{D}/run_tests` and confirm the baseline result; run `{D}/py {D}/{OUT}/k/demo.py` and confirm it fails; save the patch with `git -C {D}/wt diff > {D}/{OUT}/k/patch.diff`; then `git -C {D}/wt checkout -- .` and confirm the demo passes on the clean tree. Also write `{D}/{OUT}/k/meta.json` = {{"property": "{pid}", "summary": "<one line: what the change does>", "needs": "<what specific input / sequence / configuration is needed for the violation to manifest>", "files": [...], "tests_result": "<the exact last line of run_tests with the change applied>", "demo_result_with_change": "<exit code + last line>", "demo_result_clean": "<exit code>"}}.
 Leave the worktree clean at the end. Final message: for each change one paragraph (what, where, why the tests miss it, what it needs to manifest) and the paths of the files you wrote.""")
